@@ -5,6 +5,7 @@ pub mod c01;
 pub mod c02;
 pub mod c03;
 pub mod c04;
+pub mod c05;
 pub mod c06;
 pub mod c07;
 pub mod c08;
@@ -30,6 +31,7 @@ pub fn all() -> Vec<Monitor> {
         Monitor { meta: &c02::META, run: c02::run, replay: c02::replay },
         Monitor { meta: &c03::META, run: c03::run, replay: c03::replay },
         Monitor { meta: &c04::META, run: c04::run, replay: c04::replay },
+        Monitor { meta: &c05::META, run: c05::run, replay: c05::replay },
         Monitor { meta: &c06::META, run: c06::run, replay: c06::replay },
         Monitor { meta: &c07::META, run: c07::run, replay: c07::replay },
         Monitor { meta: &c08::META, run: c08::run, replay: c08::replay },
